@@ -198,6 +198,13 @@ def sites(tree):
                                                  decorator_list=[], returns=None, type_comment=None, lineno=st.lineno,
                                                  **({"type_params": []} if sys.version_info >= (3, 12) else {}))
                     out.append(("lambda-to-def", fname, st.lineno, b15))
+                # B23 x = E  ->  x: object = E   (an annotated assignment of a plain local)
+                if isinstance(st, ast.Assign) and len(st.targets) == 1 and isinstance(st.targets[0], ast.Name) \
+                        and not any(isinstance(n, (ast.Global, ast.Nonlocal)) for n in ast.walk(fn)):
+                    def b23(st=st, blk=blk, i=i):
+                        blk[i] = ast.AnnAssign(target=st.targets[0], annotation=ast.Name(id="object", ctx=ast.Load()),
+                                               value=st.value, simple=1, lineno=st.lineno)
+                    out.append(("ann-assign", fname, st.lineno, b23))
                 # B17 x = A if c else B  ->  if c: x = A  else: x = B
                 if isinstance(st, ast.Assign) and len(st.targets) == 1 and isinstance(st.targets[0], ast.Name) \
                         and isinstance(st.value, ast.IfExp):
@@ -250,6 +257,14 @@ def sites(tree):
                                             value=ast.BinOp(left=ast.Name(id=st.target.id, ctx=ast.Load()), op=st.op, right=st.value),
                                             lineno=st.lineno)
                     out.append(("augassign-expanded", fname, st.lineno, b7))
+        # B24 annotate the plain parameters and the result of the function
+        if fn.args.args and not any(a.annotation for a in fn.args.args) and fn.returns is None:
+            def b24(fn=fn):
+                for a in fn.args.args:
+                    if a.arg not in ("self", "cls", "mcls"):
+                        a.annotation = ast.Name(id="object", ctx=ast.Load())
+                fn.returns = ast.Name(id="object", ctx=ast.Load())
+            out.append(("ann-args", fname, fn.lineno, b24))
         # B2 De Morgan on `not (a and b)` / `not (a or b)`
         for n in ast.walk(fn):
             if isinstance(n, ast.UnaryOp) and isinstance(n.op, ast.Not) and isinstance(n.operand, ast.BoolOp):
